@@ -302,7 +302,7 @@ inline vf::CaseResult run_c16(const vf::RunnerArgs& /*args*/, const std::vector<
 // =====================================================================================================
 // C07
 // =====================================================================================================
-enum class StepK : std::uint8_t { Enter, Leave, Get, Scan, PutHold, Remove, Overwrite, GetMiss, Validate, EmptyBorder, Tick };
+enum class StepK : std::uint8_t { Enter, Leave, Get, Scan, PutHold, Remove, Overwrite, GetMiss, Validate, EmptyBorder, Tick, PartialTick };
 struct Step {
     StepK k;
     unsigned key;
@@ -323,11 +323,22 @@ inline vf::CaseResult run_c07(const vf::RunnerArgs& /*args*/, const std::vector<
     std::vector<std::vector<Step>> prog(nt);
     std::ostringstream tx;
     tx << "keys=" << nkeys << "\n";
-    static const char* names[] = {"enter", "leave", "get", "scan", "put_hold", "remove", "overwrite", "get_miss", "validate", "empty_border", "tick"};
+    static const char* names[] = {"enter", "leave", "get", "scan", "put_hold", "remove", "overwrite", "get_miss", "validate", "empty_border", "tick", "partial_tick"};
+    const bool v2 = vf::g_decoder >= 2;
+    // partial tick: the epoch (or gc) thread passes only a few yield points of its iteration and then the worker goes on, so that
+    // enters / leaves / retirements fall between two slot reads of one scan of the session table
+    auto maybe_partial = [&](unsigned t) {
+        if (v2 && c.chance(1, 3)) {
+            unsigned arg = c.range(0, 255); // bit 7: gc thread, low bits: number of yield points
+            prog[t].push_back({StepK::PartialTick, arg});
+            tx << " partial_tick(" << ((arg & 0x80U) != 0 ? "gc," : "epoch,") << 1 + (arg & 0x3fU) << ")";
+        }
+    };
     for (unsigned t = 0; t < nt; ++t) {
         unsigned nsess = 1 + c.range(0, 2);
         tx << " T" << t << ":";
         for (unsigned s = 0; s < nsess; ++s) {
+            maybe_partial(t);
             prog[t].push_back({StepK::Enter, 0});
             tx << " enter";
             unsigned nops = 1 + c.range(0, 4);
@@ -336,9 +347,11 @@ inline vf::CaseResult run_c07(const vf::RunnerArgs& /*args*/, const std::vector<
                 unsigned key = c.range(0, nkeys - 1);
                 prog[t].push_back({k, key});
                 tx << " " << names[static_cast<int>(k)] << "(" << key << ")";
+                if (i == 0) { maybe_partial(t); }
             }
             prog[t].push_back({StepK::Leave, 0});
             tx << " leave";
+            maybe_partial(t);
             if (c.chance(1, 2)) {
                 prog[t].push_back({StepK::Tick, c.range(0, 7)});
                 tx << " tick";
@@ -386,6 +399,17 @@ inline vf::CaseResult run_c07(const vf::RunnerArgs& /*args*/, const std::vector<
                 std::vector<Held> held;
                 auto validate = [&](const char* when) {
                     sched::NoYield g;
+                    // state invariant behind the guarantee (anchors of C07: gc epoch = min(begin epochs) - 1): from the moment enter
+                    // returned until leave is called, the gc epoch stays strictly below this session's begin epoch.  If it does not,
+                    // an object retired by a session one epoch behind is released under this session's feet.
+                    if (open) {
+                        const Epoch mine = static_cast<thread_info*>(tok)->get_begin_epoch();
+                        const Epoch gce = garbage_collection::get_gc_epoch();
+                        if (mine != 0 && gce >= mine && errs[t].empty()) {
+                            errs[t] = std::string("gc_epoch_not_below_open_session|the gc epoch is ") + std::to_string(gce) + " while this session, begun at epoch " + std::to_string(mine) +
+                                      ", is still open (" + when + "): objects tagged " + std::to_string(mine - 1) + " can be released although this session may hold them";
+                        }
+                    }
                     for (auto& h : held) {
                         if (track::is_quarantined(h.ptr)) {
                             if (errs[t].empty()) { errs[t] = std::string("freed_while_session_open|") + h.what + " was released (" + when + ") while the session that obtained it is still open"; }
@@ -476,6 +500,10 @@ inline vf::CaseResult run_c07(const vf::RunnerArgs& /*args*/, const std::vector<
                                 remove(tok, "s", zk);
                                 tl_call_inv = 0;
                             }
+                            break;
+                        }
+                        case StepK::PartialTick: {
+                            S.grant_background_steps((stp.key & 0x80U) != 0 ? yv::TH_GC : yv::TH_EPOCH, 1 + (stp.key & 0x3fU));
                             break;
                         }
                         case StepK::Tick: {
